@@ -133,7 +133,7 @@ Lemma kinv_after_free data base chain T s c outs :
   exists chain' T', kinv data base chain' T' (after_free s) c outs.
 Proof.
   intros Kv. destruct Kv.
-  destruct (pool_free_prep (spool s) chain (sfree s) k_prep0 ltac:(lia)) as (k & Hk & P' & Bl & Pp & Pp0).
+  destruct (pool_free_prep (spool s) chain (sfree s) k_prep0 ltac:(lia)) as (k & Hk & P' & Bl & Pp & Pp0 & _).
   set (SS := sumz (clens (blocks (spool s)) (firstn k chain))) in *.
   assert (NDf : NoDup (firstn k chain)).
   { pose proof (pr_nodup _ _ k_prep0) as ND. rewrite <- (firstn_skipn k chain) in ND. apply NoDup_app_remove_r in ND. exact ND. }
@@ -319,7 +319,7 @@ Proof.
   change (pool_free (spool s) (sfree s)) with (spool (after_free s)) in SW.
   change (sheap s) with (sheap (after_free s)) in SW.
   pose proof (k_prep _ _ _ _ _ _ _ KF) as PF.
-  destruct (pool_swap_cases _ _ chainF _ _ _ _ _ PF SW) as [(A1 & A2 & A3 & A4 & A5 & A6)|[(sw & B1 & B2 & B3 & B4 & B5 & B6)|(C1 & C2 & C3)]].
+  destruct (pool_swap_cases _ _ chainF _ _ _ _ _ PF SW) as [(A1 & A2 & A3 & A4 & A5 & A6)|[(sw & B1 & B2 & B3 & B4 & B5 & B6)|(C1 & C2 & C3 & _)]].
   - (* in place: everything shifted so far had been released *)
     subst chainF h1 pl1 nb. exists [], (base + sstart s).
     destruct KF. cbn [after_free sheap ssch serr spool sbuf sstart spos sprev sfree sid slen] in *.
